@@ -1,4 +1,106 @@
-import Walleye.Model.MoveGen
+/-
+  C17 — unknown input is ignored and the process lifecycle is clean (logic of the dispatch loop;
+  promptness of exit and the real process are observed black-box).
+-/
+import Walleye.Model.Uci
 namespace Walleye
-theorem C17_placeholder (c : Color) : c.opp.opp = c := Color.opp_opp c
+open Str
+
+variable (h : Hasher) (search : Pos → DrawTable → Nat → Option Pos)
+
+/-- a line whose first token is not a known command changes nothing and prints nothing -/
+theorem unknown_ignored (σ : Sess) (raw : List Char)
+    (hu : String.ofList ((splitOn ' ' (cleanInput raw)).headD []) ∉ knownCommands) :
+    step h search σ (some raw) = .cont σ [] := by
+  unfold step
+  simp only [knownCommands, List.mem_cons, List.not_mem_nil, or_false, not_or] at hu
+  obtain ⟨h1, h2, h3, h4, h5, h6⟩ := hu
+  simp only [h1, h2, h3, h4, h5, h6, if_false]
+
+/-- `isready` is always answered with `readyok`, and the state is untouched -/
+theorem isready_answered (σ : Sess) (raw : List Char)
+    (hc : String.ofList ((splitOn ' ' (cleanInput raw)).headD []) = "isready") :
+    step h search σ (some raw) = .cont σ ["readyok"] := by
+  unfold step; simp only [hc, if_true]
+
+theorem quit_terminates (σ : Sess) (raw : List Char)
+    (hc : String.ofList ((splitOn ' ' (cleanInput raw)).headD []) = "quit") :
+    step h search σ (some raw) = .exit 1 := by
+  unfold step; simp +decide only [hc, if_true, if_false]
+
+/-- end of input ends the process (the defect fixed in e69300b: it used to spin) -/
+theorem eof_terminates (σ : Sess) : step h search σ none = .exit 0 := rfl
+
+/-- `ucinewgame` and `setoption` keep the state -/
+theorem ignored_commands_keep_state (σ : Sess) (raw : List Char)
+    (hc : String.ofList ((splitOn ' ' (cleanInput raw)).headD []) = "ucinewgame" ∨
+          String.ofList ((splitOn ' ' (cleanInput raw)).headD []) = "setoption") :
+    step h search σ (some raw) = .cont σ [] := by
+  unfold step
+  cases hc with
+  | inl e => simp +decide only [e, if_true, if_false]
+  | inr e => simp +decide only [e, if_true, if_false]
+
+/-! ### `clean_input`: whatever whitespace comes in, only single blanks come out -/
+
+theorem trimStart_sublist (s : List Char) : ∀ c ∈ trimStart s, c ∈ s := by
+  induction s with
+  | nil => intro c hc; simp [trimStart] at hc
+  | cons x xs ih =>
+    intro c hc
+    unfold trimStart at hc
+    split at hc
+    · exact List.mem_cons_of_mem _ (ih c hc)
+    · exact hc
+
+theorem trim_sublist (s : List Char) : ∀ c ∈ trim s, c ∈ s := by
+  intro c hc
+  unfold trim at hc
+  have h1 := List.mem_reverse.mp hc
+  have h2 := trimStart_sublist _ c h1
+  have h3 := List.mem_reverse.mp h2
+  exact trimStart_sublist _ c h3
+
+/-- every whitespace character of the cleaned line is a plain blank: tabs, CR, NBSP … never survive
+    (so that `split(' ')` in the dispatcher sees every token) -/
+theorem clean_only_blanks (buf : List Char) : ∀ c ∈ cleanInput buf, isWs c = true → c = ' ' := by
+  intro c hc hw
+  unfold cleanInput at hc
+  have hmem := trim_sublist _ c hc
+  have hm2 := List.mem_reverse.mp hmem
+  -- invariant of the fold: every whitespace character pushed so far is a blank
+  have inv : ∀ (l : List Char) (acc : List Char × Char), (∀ x ∈ acc.1, isWs x = true → x = ' ') →
+      ∀ x ∈ (l.foldl (fun (acc : List Char × Char) (c : Char) =>
+        if !isWs c then (c :: acc.1, c)
+        else if !isWs acc.2 then (' ' :: acc.1, c)
+        else (acc.1, c)) acc).1, isWs x = true → x = ' ' := by
+    intro l
+    induction l with
+    | nil => intro acc ha; exact ha
+    | cons y ys ih =>
+      intro acc ha
+      simp only [List.foldl_cons]
+      apply ih
+      split
+      · rename_i hy
+        intro x hx hwx
+        cases List.mem_cons.mp hx with
+        | inl e => subst e; simp [hwx] at hy
+        | inr e => exact ha x e hwx
+      · split
+        · intro x hx hwx
+          cases List.mem_cons.mp hx with
+          | inl e => exact e
+          | inr e => exact ha x e hwx
+        · exact ha
+  exact inv buf ([], ' ') (by simp) c hm2 hw
+
+/-- unknown tokens inside `go` are skipped: a token that is not one of the five keywords in front
+    of the remaining tokens does not change the parse -/
+theorem go_unknown_token_skipped (fuel : Nat) (tok : List Char) (nxt : List Char) (rest : List (List Char)) (gt : GameTime)
+    (h1 : tok ≠ "wtime".toList) (h2 : tok ≠ "btime".toList) (h3 : tok ≠ "binc".toList)
+    (h4 : tok ≠ "winc".toList) (h5 : tok ≠ "movestogo".toList) :
+    parseGoAux (fuel + 1) (tok :: nxt :: rest) gt = parseGoAux fuel (nxt :: rest) gt := by
+  simp only [parseGoAux, h1, h2, h3, h4, h5, if_false]
+
 end Walleye
